@@ -174,6 +174,23 @@ def check_shape(shape, only=None):
         if any(abs(a[0] - b[0]) > EPS or abs(a[1] - b[1]) > EPS for a, b in zip(got, want)):
             bad("repeat-layout-differs", f"history {[x[0] + str(x[1:]) for x in h]}: {got} vs fresh {want}")
             break
+    # one long-lived TreeLayout object: every call must report the true bounding box of what it just laid out
+    shared = TreeLayout()
+    big = S.build(((((None, None), (None, None)), None), ((None, None), ((None, None), (None, None)))), BinaryTreeNode)
+    seq = [("big", 3.0, 3.0), ("self", 1.0, 1.0), ("self", 2.0, 3.0), ("self", 1.0, 1.0), ("big", 1.0, 1.0), ("self", 0.5, 1.0)]
+    root = S.build(shape, BinaryTreeNode)
+    for who, ux, uy in seq:
+        tree = big if who == "big" else root
+        try:
+            m = shared.layout(tree, ux, uy)
+        except Exception as e:  # noqa
+            bad("layout-raises-on-repeat:" + type(e).__name__, f"shared TreeLayout, call {who} ({ux},{uy}): {e!r}"[:160])
+            break
+        probs = invariants(tree, m, ux, uy)
+        if probs:
+            k, d = probs[0]
+            bad(k if who == "self" else k, f"shared TreeLayout object, after {seq[:seq.index((who, ux, uy)) + 1]}: {d}")
+            break
     seen, res = set(), []
     for k, d in out:
         if k not in seen:
@@ -195,7 +212,7 @@ def _work(task):
     for si in range(lo, hi):
         shape = shp[si]
         acc.count("shapes")
-        acc.count("layout_calls", 3 + 2 + 11)
+        acc.count("layout_calls", 3 + 2 + 11 + 6)
         acc.count("shapes:" + classify(shape))
         if n > 1:
             acc.count("nontrivial")
@@ -223,7 +240,8 @@ def run(tier, seed):
         "bound": {"max_nodes": N, "units": UNITS},
         "full_binary_shapes": acc.n["shapes:full"], "shapes_with_one_child_nodes": acc.n["shapes:one-child"],
         "explanation": f"every binary tree shape with 1..{N} nodes: layout under 3 unit settings (invariants, scaling), the mirrored "
-                       "shape, and 5 call histories of <= 3 layout calls on the same node objects compared with a freshly built tree; "
+                       "shape, 5 call histories of <= 3 layout calls on the same node objects compared with a freshly built tree, and a "
+                       "6-call history on ONE TreeLayout object alternating with another tree and other units (bounding box after each); "
                        "every layout call is an execution of the implementation",
     }
     return acc, cov, ["'one unit apart' is measured between in-order neighbours of one depth, in units of unit_x_multiplier"]
